@@ -566,18 +566,66 @@ const Y_BR: &[char] = &['(', ')', '（', '）', '[', ']', '《', '》'];
 const Y_OTHER: &[char] = &['a', 'に', '。', '\u{10400}'];
 
 struct YomiCfg {
+    /// classes derived from the TEXT of the char.def in use (union of the definition lines), never from the implementation
     kanji: Vec<(u32, u32)>,
     reading: Vec<(u32, u32)>,
     lbs: Vec<char>,
     rbs: Vec<char>,
     maxlen: usize,
     chardef: String,
+    /// shipped definition file (relative to the repository) instead of a generated one
+    chardef_file: Option<String>,
+}
+
+/// Independent reading of a char.def: the code points whose class set (union of all covering lines, as C17 proves
+/// get_category_types computes it) intersects KANJI, resp. HIRAGANA|KATAKANA.  `ALL` contains every class bit.
+fn chardef_classes(text: &str) -> (Vec<(u32, u32)>, Vec<(u32, u32)>) {
+    let mut kanji = vec![];
+    let mut reading = vec![];
+    for line in text.lines() {
+        let line = line.split('#').next().unwrap().trim();
+        if !line.starts_with("0x") {
+            continue;
+        }
+        let cols: Vec<&str> = line.split_whitespace().collect();
+        let r: Vec<&str> = cols[0].split("..").collect();
+        let hex = |x: &str| u32::from_str_radix(x.trim_start_matches("0x"), 16).unwrap();
+        let lo = hex(r[0]);
+        let hi = if r.len() > 1 { hex(r[1]) } else { lo };
+        if cols[1..].iter().any(|c| *c == "KANJI" || *c == "ALL") {
+            kanji.push((lo, hi));
+        }
+        if cols[1..].iter().any(|c| *c == "HIRAGANA" || *c == "KATAKANA" || *c == "ALL") {
+            reading.push((lo, hi));
+        }
+    }
+    (kanji, reading)
+}
+
+/// the code points on both sides of both ends of every definition range: begin-1, begin, end, end+1
+fn boundary_chars(rs: &[(u32, u32)]) -> Vec<char> {
+    let mut v: Vec<char> = vec![];
+    for (lo, hi) in rs {
+        for x in [lo.wrapping_sub(1), *lo, *hi, hi + 1] {
+            if let Some(c) = char::from_u32(x) {
+                if x != u32::MAX && !v.contains(&c) {
+                    v.push(c);
+                }
+            }
+        }
+    }
+    v
+}
+
+fn in_class(rs: &[(u32, u32)], c: char) -> bool {
+    rs.iter().any(|(a, b)| *a <= c as u32 && c as u32 <= *b)
 }
 
 fn gen_yomi(rng: &mut Rng, first: bool) -> YomiCfg {
-    // classes as lists of inclusive ranges; mostly the natural ones, sometimes overlapping with brackets / each other
+    // definition lines; mostly the natural ones, sometimes overlapping with brackets / each other, single points, ALL blocks
     let mut kanji: Vec<(u32, u32)> = vec![(0x4E00, 0x9FFF)];
     let mut reading: Vec<(u32, u32)> = vec![(0x3041, 0x309F), (0x30A1, 0x30FF)];
+    let mut all: Vec<(u32, u32)> = vec![];
     let mut lbs = vec!['(', '（'];
     let mut rbs = vec![')', '）'];
     let mut maxlen = 4;
@@ -595,57 +643,130 @@ fn gen_yomi(rng: &mut Rng, first: bool) -> YomiCfg {
             lbs = (0..1 + rng.below(3)).map(|_| *rng.pick(Y_BR)).collect();
             rbs = (0..1 + rng.below(3)).map(|_| *rng.pick(Y_BR)).collect();
         }
+        // further runs: short ranges, single points, runs that touch each other, an ALL block
+        for _ in 0..rng.below(4) {
+            let lo = *rng.pick(&[0x3005u32, 0x3007, 0x3400, 0x2E80, 0xF900, 0x62, 0x3100, 0xFF66, 0x1F3FB, 0x31F0]) + rng.below(3) as u32;
+            let hi = lo + if rng.chance(1, 3) { 0 } else { rng.below(6) as u32 };
+            if rng.chance(1, 2) {
+                kanji.push((lo, hi));
+            } else {
+                reading.push((lo, hi));
+            }
+        }
+        if rng.chance(1, 3) {
+            let lo = *rng.pick(&[0x0300u32, 0x20D0, 0xFE00, 0x1F3FB, 0x200C]);
+            all.push((lo, lo + rng.below(8) as u32));
+        }
         maxlen = 1 + rng.below(4) as usize;
     }
     lbs.dedup();
     rbs.dedup();
+    let line = |lo: u32, hi: u32, cat: &str| if lo == hi { format!("0x{:04X} {}\n", lo, cat) } else { format!("0x{:04X}..0x{:04X} {}\n", lo, hi, cat) };
     let mut cd = String::new();
     for (lo, hi) in &kanji {
-        cd.push_str(&format!("0x{:04X}..0x{:04X} KANJI\n", lo, hi));
+        cd.push_str(&line(*lo, *hi, "KANJI"));
     }
     for (i, (lo, hi)) in reading.iter().enumerate() {
-        cd.push_str(&format!("0x{:04X}..0x{:04X} {}\n", lo, hi, if i % 2 == 0 { "HIRAGANA" } else { "KATAKANA" }));
+        cd.push_str(&line(*lo, *hi, if i % 2 == 0 { "HIRAGANA" } else { "KATAKANA" }));
+    }
+    for (lo, hi) in &all {
+        cd.push_str(&line(*lo, *hi, "ALL NOOOVBOW # block"));
     }
     cd.push_str("0x0030..0x0039 NUMERIC\n");
-    YomiCfg { kanji, reading, lbs, rbs, maxlen, chardef: cd }
+    let (k, r) = chardef_classes(&cd);
+    YomiCfg { kanji: k, reading: r, lbs, rbs, maxlen, chardef: cd, chardef_file: None }
+}
+
+/// the shipped definition files with the settings of the shipped configuration
+fn shipped_yomi(file: &str) -> Option<YomiCfg> {
+    let text = std::fs::read_to_string(format!("{}/{}", repo(), file)).ok()?;
+    let (kanji, reading) = chardef_classes(&text);
+    Some(YomiCfg { kanji, reading, lbs: vec!['(', '（'], rbs: vec![')', '）'], maxlen: 4, chardef: String::new(), chardef_file: Some(file.to_string()) })
+}
+
+fn yomi_dict(env: &mut Env, y: &YomiCfg) -> Result<JapaneseDictionary, String> {
+    let cd = match &y.chardef_file {
+        Some(f) => format!("{}/{}", repo(), f),
+        None => env.file("char", &y.chardef),
+    };
+    let plugin = json!({"class": "com.worksap.nlp.sudachi.IgnoreYomiganaPlugin",
+        "leftBrackets": y.lbs.iter().map(|c| c.to_string()).collect::<Vec<_>>(),
+        "rightBrackets": y.rbs.iter().map(|c| c.to_string()).collect::<Vec<_>>(),
+        "maxYomiganaLength": y.maxlen});
+    env.dict(&cd, plugin)
+}
+
+/// Directed: every code point next to an end of a definition range (begin-1, begin, end, end+1), once in the kanji
+/// position and once in the reading position of an otherwise perfect candidate.  `group` candidates per text.
+fn yomi_boundary_sweep(sink: &mut Sink, d: &JapaneseDictionary, y: &YomiCfg, group: usize) {
+    // a character that certainly is a kanji / a reading for this definition file, and brackets that are neither
+    let Some(k0) = y.kanji.iter().filter_map(|(lo, _)| char::from_u32(*lo)).find(|c| !y.lbs.contains(c) && !y.rbs.contains(c)) else { return };
+    let Some(r0) = y.reading.iter().filter_map(|(lo, _)| char::from_u32(*lo)).find(|c| !y.lbs.contains(c) && !y.rbs.contains(c)) else { return };
+    let (lb, rb) = (y.lbs[0], y.rbs[0]);
+    let mut cands: Vec<String> = vec![];
+    for b in boundary_chars(&y.kanji) {
+        cands.push(format!("{}{}{}{}。", b, lb, r0, rb));
+    }
+    for b in boundary_chars(&y.reading) {
+        cands.push(format!("{}{}{}{}。", k0, lb, b, rb));
+        if y.maxlen >= 3 {
+            cands.push(format!("{}{}{}{}{}{}。", k0, lb, r0, b, r0, rb));
+        }
+    }
+    for chunk in cands.chunks(group) {
+        yomi_case(sink, d, y, &chunk.concat(), false);
+        sink.tag("yomi_class_boundary_probe");
+    }
 }
 
 fn yomi_stream(sink: &mut Sink, env: &mut Env, rng: &mut Rng, ncfg: usize, per: usize) {
-    for i in 0..ncfg {
-        let y = gen_yomi(rng, i == 0);
-        let cd = env.file("char", &y.chardef);
-        let plugin = json!({"class": "com.worksap.nlp.sudachi.IgnoreYomiganaPlugin",
-            "leftBrackets": y.lbs.iter().map(|c| c.to_string()).collect::<Vec<_>>(),
-            "rightBrackets": y.rbs.iter().map(|c| c.to_string()).collect::<Vec<_>>(),
-            "maxYomiganaLength": y.maxlen});
-        let d = match env.dict(&cd, plugin) {
+    let mut cfgs: Vec<YomiCfg> = vec![gen_yomi(rng, true)];
+    for f in ["sudachi/tests/resources/char.def", "resources/char.def"] {
+        if let Some(y) = shipped_yomi(f) {
+            cfgs.push(y);
+        }
+    }
+    let fixed = cfgs.len();
+    for _ in fixed..ncfg {
+        cfgs.push(gen_yomi(rng, false));
+    }
+    for (i, y) in cfgs.iter().enumerate() {
+        let d = match yomi_dict(env, y) {
             Ok(d) => d,
             Err(e) => {
-                let id = sink.case_rust_only(json!({"kind": "yomi-load", "chardef": y.chardef}), false);
+                let id = sink.case_rust_only(json!({"kind": "yomi-load", "chardef": y.chardef, "chardef_file": y.chardef_file}), false);
                 sink.fail(id, &format!("yomigana settings rejected: {}", e), "");
                 continue;
             }
         };
-        if i == 0 {
-            for s in ["徳島（とくしま）に行く", "徳島（とくしま）に行（い）く", "徳島(とくしま)に行（い）く", "徳島に（よく）行く", "徳島（ながいよみ）に行く", "徳島（とくしま）"] {
-                yomi_case(sink, &d, &y, s, false);
+        if i < fixed {
+            for s in ["徳島（とくしま）に行く", "徳島（とくしま）に行（い）く", "徳島(とくしま)に行（い）く", "徳島に（よく）行く", "徳島（ながいよみ）に行く", "徳島（とくしま）",
+                "〆（しめ）切は明日", "々（どう）", "〇（ゼロ）", "漢（゠）", "漢（かﾠな）", "島(ｼﾏ)"] {
+                yomi_case(sink, &d, y, s, false);
             }
         }
+        // one probe per text for the natural and the shipped definition files, four per text for the generated ones
+        yomi_boundary_sweep(sink, &d, y, if i < fixed { 1 } else { 4 });
+        // random texts: kanji / reading positions are filled from both sides of every range end as often as from the middle
+        let mut kpool: Vec<char> = boundary_chars(&y.kanji);
+        let mut rpool: Vec<char> = boundary_chars(&y.reading);
+        kpool.extend_from_slice(Y_KANJI);
+        rpool.extend_from_slice(Y_READ);
         for _ in 0..per {
             let n = rng.below(12) as usize;
             let mut s = String::new();
             for _ in 0..n {
                 match rng.below(8) {
-                    0 | 1 => s.push(*rng.pick(Y_KANJI)),
-                    2 | 3 => s.push(*rng.pick(Y_READ)),
+                    0 | 1 => s.push(*rng.pick(&kpool)),
+                    2 | 3 => s.push(*rng.pick(&rpool)),
                     4 => s.push(*rng.pick(&y.lbs)),
                     5 => s.push(*rng.pick(&y.rbs)),
                     6 => {
                         // a complete candidate: kanji, bracket, readings, bracket
-                        s.push(*rng.pick(Y_KANJI));
+                        s.push(*rng.pick(&kpool));
                         s.push(*rng.pick(&y.lbs));
                         for _ in 0..rng.below(y.maxlen as u64 + 2) {
-                            s.push(*rng.pick(Y_READ));
+                            s.push(*rng.pick(&rpool));
                         }
                         s.push(*rng.pick(&y.rbs));
                     }
@@ -655,13 +776,14 @@ fn yomi_stream(sink: &mut Sink, env: &mut Env, rng: &mut Rng, ncfg: usize, per: 
                     }
                 }
             }
-            yomi_case(sink, &d, &y, &s, false);
+            yomi_case(sink, &d, y, &s, false);
         }
     }
 }
 
 fn yomi_oracle(y: &YomiCfg, text: &str) -> String {
-    let inr = |rs: &[(u32, u32)], c: char| rs.iter().any(|(a, b)| *a <= c as u32 && c as u32 <= *b);
+    // U+10FFFF is never in a class: CharCategoryIter reports the last range as ..char::MAX exclusive (modelled in check_yomi too)
+    let inr = |rs: &[(u32, u32)], c: char| in_class(rs, c) && (c as u32) < 0x10FFFF;
     let ch: Vec<char> = text.chars().collect();
     let mut out = String::new();
     let mut i = 0;
@@ -708,7 +830,7 @@ fn yomi_case(sink: &mut Sink, d: &JapaneseDictionary, y: &YomiCfg, text: &str, v
     let want = yomi_oracle(y, text);
     let nontrivial = want != text;
     sink.tag(if nontrivial { "yomi_removed" } else { "yomi_unchanged" });
-    let desc = json!({"kind": "yomi", "text": text, "kanji": y.kanji, "reading": y.reading, "chardef": y.chardef, "maxlen": y.maxlen,
+    let desc = json!({"kind": "yomi", "text": text, "chardef": y.chardef, "chardef_file": y.chardef_file, "maxlen": y.maxlen,
         "lbs": y.lbs.iter().map(|c| c.to_string()).collect::<Vec<_>>(), "rbs": y.rbs.iter().map(|c| c.to_string()).collect::<Vec<_>>()});
     let id = sink.case(term, desc, nontrivial);
     if verbose {
@@ -811,9 +933,6 @@ fn malformed(sink: &mut Sink, env: &mut Env) {
 fn strs(v: &Value) -> Vec<char> {
     v.as_array().map(|a| a.iter().filter_map(|x| x.as_str().and_then(|s| s.chars().next())).collect()).unwrap_or_default()
 }
-fn ranges(v: &Value) -> Vec<(u32, u32)> {
-    v.as_array().map(|a| a.iter().map(|x| (x[0].as_u64().unwrap() as u32, x[1].as_u64().unwrap() as u32)).collect()).unwrap_or_default()
-}
 
 fn replay(sink: &mut Sink, env: &mut Env, case: &Value) {
     let text = case["text"].as_str().unwrap_or("").to_string();
@@ -846,13 +965,17 @@ fn replay(sink: &mut Sink, env: &mut Env, case: &Value) {
             psm_case(sink, &d, &marks, &sym, &text, true);
         }
         "yomi" => {
-            let y = YomiCfg { kanji: ranges(&case["kanji"]), reading: ranges(&case["reading"]), lbs: strs(&case["lbs"]), rbs: strs(&case["rbs"]),
-                maxlen: case["maxlen"].as_u64().unwrap_or(4) as usize, chardef: case["chardef"].as_str().unwrap_or("").to_string() };
-            let cd = env.file("char", &y.chardef);
-            let d = env.dict(&cd, json!({"class": "com.worksap.nlp.sudachi.IgnoreYomiganaPlugin",
-                "leftBrackets": y.lbs.iter().map(|c| c.to_string()).collect::<Vec<_>>(),
-                "rightBrackets": y.rbs.iter().map(|c| c.to_string()).collect::<Vec<_>>(), "maxYomiganaLength": y.maxlen})).unwrap();
-            println!("text {:?}", text);
+            let file = case["chardef_file"].as_str().map(|x| x.to_string());
+            let chardef = case["chardef"].as_str().unwrap_or("").to_string();
+            let body = match &file {
+                Some(f) => std::fs::read_to_string(format!("{}/{}", repo(), f)).unwrap(),
+                None => chardef.clone(),
+            };
+            let (kanji, reading) = chardef_classes(&body);
+            let y = YomiCfg { kanji, reading, lbs: strs(&case["lbs"]), rbs: strs(&case["rbs"]),
+                maxlen: case["maxlen"].as_u64().unwrap_or(4) as usize, chardef, chardef_file: file };
+            let d = yomi_dict(env, &y).unwrap();
+            println!("char.def: {}\nbrackets {:?}/{:?} max {} text {:?}", y.chardef_file.clone().unwrap_or(y.chardef.clone()), y.lbs, y.rbs, y.maxlen, text);
             yomi_case(sink, &d, &y, &text, true);
         }
         "chain" => {
@@ -895,7 +1018,7 @@ fn directed(sink: &mut Sink, env: &mut Env, rng: &mut Rng) {
 pub fn run(args: &Args) {
     let mut sink = Sink::new("C07", &args.out, &["Model.Normalize"], args.seed, &args.tier);
     sink.shard_size = 120;
-    sink.rule("(a) DefaultInputTextPlugin: random rewrite.def tables (0..6 keys of 1..3 code points over {a,b,c} or a 53-character alphabet of upper-case / full-width / compatibility / combining / title-case / astral characters; chains of keys that are prefixes of other keys; multi-character values; 0..3 exempt characters) x texts built from keys, truncated keys, exempt characters and the alphabet; one third of the texts are fast-path texts, half of those are re-run next to an unrelated full-width letter (context pair); (b) ProlongedSoundMarkPlugin: random mark sets incl. regex-special characters x symbols (default, multi-character, empty) x texts dense in marks; (c) IgnoreYomiganaPlugin: char.def / bracket sets / max length (classes overlapping each other and the brackets) x texts dense in kanji-bracket-reading-bracket candidates; (d) every Unicode scalar value alone and between neighbours for the shipped tables (stride in the quick tier), and the oracle laws over all scalar values. non-trivial = a key occurs or some character changes (a), a run of >= 2 marks occurs (b), something is removed (c); distinct by generated Coq term");
+    sink.rule("(a) DefaultInputTextPlugin: random rewrite.def tables (0..6 keys of 1..3 code points over {a,b,c} or a 53-character alphabet of upper-case / full-width / compatibility / combining / title-case / astral characters; chains of keys that are prefixes of other keys; multi-character values; 0..3 exempt characters) x texts built from keys, truncated keys, exempt characters and the alphabet; one third of the texts are fast-path texts, half of those are re-run next to an unrelated full-width letter (context pair); (b) ProlongedSoundMarkPlugin: random mark sets incl. regex-special characters x symbols (default, multi-character, empty) x texts dense in marks; (c) IgnoreYomiganaPlugin: the natural, the two shipped and random char.def files (short runs, single points, touching runs, ALL blocks, classes overlapping each other and the brackets) / bracket sets / max length; the kanji and reading classes of the oracle and of the Coq model are derived from the TEXT of the char.def (union of definition lines), never from the implementation; for every definition range the code points begin-1, begin, end, end+1 are probed in the kanji position and in the reading position of an otherwise perfect candidate, and random texts dense in kanji-bracket-reading-bracket candidates draw those positions from both sides of every range end; (d) every Unicode scalar value alone and between neighbours for the shipped tables (stride in the quick tier), and the oracle laws over all scalar values. non-trivial = a key occurs or some character changes (a), a run of >= 2 marks occurs (b), something is removed (c); distinct by generated Coq term");
     let mut env = Env::new(args);
     if let Some(p) = &args.replay {
         let v: Value = serde_json::from_str(&std::fs::read_to_string(p).unwrap()).unwrap();
